@@ -24,7 +24,7 @@ def ref_state(model_values, n):
 
 
 def state_of(model, names):
-    return {'values': {k: np.asarray(model[k]).copy() for k in names},
+    return {'values': {k: np.asarray(model.__dict__['_' + k]).copy() for k in names},
             'status': [str(x) for x in model.status], 'iterations': [int(x) for x in model.iterations]}
 
 
@@ -40,8 +40,8 @@ def compare_states(res, prefix, model, ref, names, detail):
         res.fail(f'{prefix}/iterations', f'{detail}: iterations {it}, reference {ref["iterations"]}')
         ok = False
     for name in names:
-        if not same_array(np.asarray(model[name]), ref['values'][name]):
-            res.fail(f'{prefix}/values', f'{detail}: {name} = {np.asarray(model[name]).tolist()}, '
+        if not same_array(np.asarray(model.__dict__['_' + name]), ref['values'][name]):
+            res.fail(f'{prefix}/values', f'{detail}: {name} = {np.asarray(model.__dict__['_' + name]).tolist()}, '
                      f'reference {ref["values"][name].tolist()}')
             ok = False
             break
